@@ -28,19 +28,35 @@ SPEC = core.SPEC / "rank"
 
 # ------------------------------------------------------------------------------------------------ descriptors
 
+def _d(thCL=("est",), thV=("est", "est"), thP=(), etaCL="est", etaV="est", sig="est", block="none", etaP="none", iov="none"):
+    return {"thCL": list(thCL), "thV": list(thV), "thP": list(thP), "etaCL": etaCL, "etaV": etaV, "sig": sig,
+            "block": block, "etaP": etaP, "iov": iov}
+
+
+# block: joint IIV distribution - "est" (ETA_CL, ETA_VC; 1 estimated covariance), "fix" (the whole block fixed; pharmpy
+# refuses to fix only part of a block), "est3" (ETA_CL, ETA_VC, ETA_QP1; 3 covariances); etaP: "diag" = etas on QP1, VP1;
+# iov: "est" = inter-occasion variability on CL (one OMEGA_IOV, not an IIV omega)
 DESCS = [
-    {"thCL": ["est"], "thV": ["est", "est"], "thP": [], "etaCL": "est", "etaV": "est", "sig": "est"},  # 1 pheno
-    {"thCL": ["fix"], "thV": ["est", "est"], "thP": [], "etaCL": "est", "etaV": "est", "sig": "est"},  # 2
-    {"thCL": ["est"], "thV": ["est", "est"], "thP": [], "etaCL": "fix0", "etaV": "est", "sig": "est"},  # 3
-    {"thCL": ["est"], "thV": ["est", "est"], "thP": [], "etaCL": "fixnz", "etaV": "est", "sig": "est"},  # 4
-    {"thCL": ["est"], "thV": ["est", "est"], "thP": [], "etaCL": "none", "etaV": "est", "sig": "est"},  # 5
-    {"thCL": ["est"], "thV": ["est", "est"], "thP": ["est", "est"], "etaCL": "est", "etaV": "est", "sig": "est"},  # 6
-    {"thCL": ["est", "est"], "thV": ["est", "est"], "thP": [], "etaCL": "est", "etaV": "est", "sig": "est"},  # 7
-    {"thCL": ["est"], "thV": ["est", "est"], "thP": [], "etaCL": "est", "etaV": "est", "sig": "fix"},  # 8
-    {"thCL": ["est", "est"], "thV": ["est", "fix"], "thP": ["est", "est"], "etaCL": "none", "etaV": "fix0", "sig": "est"},  # 9
-    {"thCL": ["est"], "thV": ["est", "est"], "thP": ["est", "fix"], "etaCL": "est", "etaV": "none", "sig": "est"},  # 10
-    {"thCL": ["est", "est"], "thV": ["est", "est"], "thP": ["est", "est"], "etaCL": "est", "etaV": "est", "sig": "est"},  # 11
-    {"thCL": ["est"], "thV": ["fix", "fix"], "thP": [], "etaCL": "none", "etaV": "fixnz", "sig": "est"},  # 12
+    _d(),  # 1 pheno
+    _d(thCL=["fix"]),  # 2
+    _d(etaCL="fix0"),  # 3
+    _d(etaCL="fixnz"),  # 4
+    _d(etaCL="none"),  # 5
+    _d(thP=["est", "est"]),  # 6
+    _d(thCL=["est", "est"]),  # 7
+    _d(sig="fix"),  # 8
+    _d(thCL=["est", "est"], thV=["est", "fix"], thP=["est", "est"], etaCL="none", etaV="fix0"),  # 9
+    _d(thP=["est", "fix"], etaV="none"),  # 10
+    _d(thCL=["est", "est"], thP=["est", "est"]),  # 11
+    _d(thV=["fix", "fix"], etaCL="none", etaV="fixnz"),  # 12
+    _d(block="est"),  # 13 full 2x2 block, covariance estimated
+    _d(block="fix", etaCL="fixnz", etaV="fixnz"),  # 14 fixed block
+    _d(thP=["est", "est"], etaP="diag"),  # 15 etas on the peripheral parameters
+    _d(thP=["est", "est"], etaP="diag", block="est3"),  # 16 3x3 block + one diagonal eta
+    _d(iov="est"),  # 17 IOV on CL
+    _d(block="est", iov="est"),  # 18 (add_iov raises AssertionError after add_covariate_effect on the same parameter)
+    _d(thP=["est", "est"], etaP="diag", block="est", sig="fix"),  # 19
+    _d(thCL=["fix"], thP=["est", "fix"], etaP="diag", block="est3", iov="est"),  # 20
 ]
 
 _REAL: dict = {}
@@ -52,7 +68,10 @@ def realise(di: int):
         return _REAL[di]
     from pharmpy.modeling import (
         add_covariate_effect,
+        add_iiv,
+        add_iov,
         convert_model,
+        create_joint_distribution,
         fix_parameters,
         fix_parameters_to,
         load_example_model,
@@ -76,6 +95,16 @@ def realise(di: int):
         m = add_covariate_effect(m, "CL", "APGR", "exp")
     if d["thP"]:
         m = set_peripheral_compartments(m, 1)
+    if d["etaP"] == "diag":
+        m = add_iiv(m, ["QP1", "VP1"], "exp")
+    if d["block"] in ("est", "fix"):
+        m = create_joint_distribution(m, ["ETA_CL", "ETA_VC"])
+        if d["block"] == "fix":
+            tofix.append("IIV_CL_IIV_VC")
+    elif d["block"] == "est3":
+        m = create_joint_distribution(m, ["ETA_CL", "ETA_VC", "ETA_QP1"])
+    if d["iov"] == "est":
+        m = add_iov(m, "APGR", ["CL"])
     if d["sig"] == "fix":
         tofix.append("SIGMA")
     if tofix:
@@ -85,9 +114,15 @@ def realise(di: int):
     used = {str(x) for x in m.statements.free_symbols}
     if not set(pn) <= used | set(m.random_variables.parameter_names):
         raise core.MachineryError(f"descriptor {di}: parameters {set(pn) - used} are not used by the model")
-    want = (len(d["thCL"]) + len(d["thV"]) + len(d["thP"]) + sum(1 for e in ("etaCL", "etaV") if d[e] != "none") + 1)
-    if len(pn) != want:
-        raise core.MachineryError(f"descriptor {di} realised with parameters {pn}, expected {want}")
+    ncov = {"none": 0, "est": 1, "fix": 1, "est3": 3}[d["block"]]
+    want = (len(d["thCL"]) + len(d["thV"]) + len(d["thP"]) + sum(1 for e in ("etaCL", "etaV") if d[e] != "none")
+            + (2 if d["etaP"] == "diag" else 0) + ncov + (1 if d["iov"] == "est" else 0) + 1)
+    nest = (sum(st == "est" for gk in names for st in d[gk]) + sum(1 for e in ("etaCL", "etaV") if d[e] == "est")
+            + (2 if d["etaP"] == "diag" else 0) + (ncov if d["block"] in ("est", "est3") else 0) + (1 if d["iov"] == "est" else 0)
+            + (1 if d["sig"] == "est" else 0))
+    if len(pn) != want or len(m.parameters.nonfixed) != nest:
+        raise core.MachineryError(f"descriptor {di} realised with parameters {[(p.name, p.fix) for p in m.parameters]}, "
+                                  f"expected {want} parameters, {nest} estimated")
     # a generic model: the criteria are format independent and the NONMEM code generation that every internal
     # transformation of a NONMEM model triggers (replace_non_random_rvs inside calculate_bic) costs 0.2 s per call
     m = convert_model(m, "generic")
@@ -227,6 +262,12 @@ CORE_GROUPS = [
      "cfgs": [cfg("ofv", strict=DEFAULT_STRICT), cfg("ofv", cutoff=3840, strict=DEFAULT_STRICT), cfg("aic", strict=FIXED_STRICT[2]),
               cfg("lrt", strict=FIXED_STRICT[4]), cfg("ofv", strict=FIXED_STRICT[5]), cfg("aic", cutoff=0, strict=FIXED_STRICT[7])],
      "maxLen": 4},
+    # block IIV structures (estimated / fixed covariances, 3x3 block), etas on peripheral parameters, IOV: the BIC variants
+    # count different subsets of the OMEGA elements
+    {"models": [M(1, 100), M(13, 95), M(14, 95), M(16, 90), M(17, 100), M(18, 90)],
+     "cfgs": [cfg("bic", "iiv"), cfg("bic", "mixed"), cfg("bic", "random"), cfg("bic", "fixed"), cfg("aic"), cfg("lrt"),
+              cfg("bic", "iiv", cutoff=0)],
+     "maxLen": 3},
     # LRT with parent chains, negative degrees of freedom, two-sided cut-off
     {"models": [M(6, 100), M(1, 100), M(11, 90), M(5, 100), M(7, 95), M(6, 0)],
      "cfgs": [cfg("lrt"), cfg("lrt", parents="chain"), cfg("lrt", cutoff=("0.01", "0.05"), parents="chain"),
